@@ -51,7 +51,7 @@ CHECKS = {
         rule=('base = generated valid server->client packet (random 256-byte key, envelope fields, body 0..200 bytes quick / 0..2048 thorough); '
               'each base is evaluated under every fault of the list above; a case is (receiver key, bytes handed to DeserializeEncrypted / '
               'DeserializeUnencrypted). Non-trivial: the fault changes at least one byte; distinct by hash of (key, bytes).'),
-        must_hit=['no-session-key', 'sessions-with-different-keys-at-once', 'flip:keyid', 'flip:msgkey', 'flip:ciphertext', 'trunc:8..23-with-valid-keyid', 'trunc:<8', 'trunc:>=24', 'attacker:L<0',
+        must_hit=['client:>=45-bad-packets-in-a-row', 'no-session-key', 'sessions-with-different-keys-at-once', 'flip:keyid', 'flip:msgkey', 'flip:ciphertext', 'trunc:8..23-with-valid-keyid', 'trunc:<8', 'trunc:>=24', 'attacker:L<0',
                   'attacker:L-just-above', 'attacker:L-huge', 'attacker:L-in-range', 'rekeyed', 'garbage', 'parity:low=10,negative=true', 'parity:low=00,negative=false', 'plain:parity:low=10,negative=true', 'plain:bad-length', 'plain:truncated-header', 'client:forged-plain-result', 'client:corrupted-result'] + ['client:mangled:' + k for k in ('flip', 'truncate', 'append', 'garbage', 'rekey', 'reflect', 'evenid', 'badlen')],
         assumptions=['the reference acceptance decision reads the statement literally: key id, msg_key over header+declared body, 0<=L<=data, server parity; '
                      'an attacker-with-key packet that satisfies all four is accepted (the statement allows it)'],
